@@ -24,6 +24,9 @@ pub enum Act {
     Connect { c: usize },
     /// drop the connect future of `c` if it is still pending
     Cancel { c: usize },
+    /// the pending connect future of `c` moves to another task: it is polled again, with a new waker;
+    /// the old waker is dropped (only the latest registration counts)
+    Repoll { c: usize },
     /// start one blocking `accept` on listener `l` (stays armed until it yields)
     Accept { l: usize },
     /// `client`: the connecting end, else the accepted end (skipped while not yet accepted)
@@ -249,6 +252,15 @@ impl<'a> Sim<'a> {
                     if self.cs[c].target.map(|t| self.listening_at(t).is_some()).unwrap_or(false) {
                         self.rep.faults.inc("connect_cancelled_to_live_listener");
                     }
+                }
+            }
+            Act::Repoll { c } => {
+                let c = *c;
+                if self.cs[c].fut.is_some() && self.cs[c].result.is_none() {
+                    self.cs[c].flag = Some(WakeFlag::new());
+                    self.log.ev(format!("r{} c{c}: pending connect polled again with a new waker", self.round));
+                    self.rep.probes.inc("pending_connect_repolled_with_a_new_waker");
+                    self.poll_connect(c);
                 }
             }
             Act::Accept { l } => {
@@ -1273,7 +1285,11 @@ fn gen_scenario_raw(rng: &mut Rng, tier: Tier) -> Scenario {
     let wild = if v6 { "::" } else { "0.0.0.0" };
     let nl = rng.usize(1, 2);
     let listeners: Vec<ListenerSpec> = (0..nl).map(|l| ListenerSpec { ip: if rng.chance(1, 2) { wild.to_string() } else { rng.pick(&hosts[0]).clone() }, port: 9000 + l as u16 }).collect();
-    let cfg = NetCfg { retx_threshold: rng.range(2, 3) as u32, retx_max: rng.range(3, 5) as u32, backlog: rng.usize(1, 4) };
+    // one timeline in five: a receive buffer far smaller than the largest write (the window closes on an
+    // end that nobody reads any more)
+    let small_window = rng.chance(1, 5);
+    let cfg = NetCfg { retx_threshold: rng.range(2, 3) as u32, retx_max: rng.range(3, 5) as u32, backlog: rng.usize(1, 4), recv_cap: if small_window { *rng.pick(&[64u32, 256, 1000]) } else { 0 } };
+    let wsizes: &[u16] = if small_window { &[8, 100, 3000, 9000] } else { &[1, 8, 100] };
     if rng.chance(1, 7) {
         return gen_pressure(rng, guarded, cfg, hosts, listeners, nclients);
     }
@@ -1293,10 +1309,13 @@ fn gen_scenario_raw(rng: &mut Rng, tier: Tier) -> Scenario {
         if rng.chance(3, 10) {
             tl.push((start + rng.range(0, 4) as u32, Act::Cancel { c }));
         }
+        if rng.chance(1, 4) {
+            tl.push((start + rng.range(0, 2) as u32, Act::Repoll { c }));
+        }
         for _ in 0..rng.usize(0, 4) {
             t += rng.range(0, 3) as u32;
             let a = match rng.weighted(&[3, 2, 2, 3]) {
-                0 => Act::Write { c, client: true, n: *rng.pick(&[1u16, 8, 100]) },
+                0 => Act::Write { c, client: true, n: *rng.pick(wsizes) },
                 1 => Act::Read { c, client: true },
                 2 => Act::Shutdown { c, client: true },
                 _ => Act::Drop { c, client: true },
@@ -1311,7 +1330,7 @@ fn gen_scenario_raw(rng: &mut Rng, tier: Tier) -> Scenario {
                 for _ in 0..rng.usize(0, 4) {
                     t += rng.range(0, 3) as u32;
                     let a = match rng.weighted(&[3, 2, 2, 3]) {
-                        0 => Act::Write { c, client: false, n: *rng.pick(&[1u16, 8, 100]) },
+                        0 => Act::Write { c, client: false, n: *rng.pick(wsizes) },
                         1 => Act::Read { c, client: false },
                         2 => Act::Shutdown { c, client: false },
                         _ => Act::Drop { c, client: false },
@@ -1456,7 +1475,7 @@ impl Property for C13 {
         for c in (0..sc.conns.len()).rev() {
             let mut s = sc.clone();
             s.timeline.retain(|(_, a)| match a {
-                Act::Connect { c: x } | Act::Cancel { c: x } | Act::Write { c: x, .. } | Act::Read { c: x, .. } | Act::Shutdown { c: x, .. } | Act::Drop { c: x, .. } => *x != c,
+                Act::Connect { c: x } | Act::Cancel { c: x } | Act::Repoll { c: x } | Act::Write { c: x, .. } | Act::Read { c: x, .. } | Act::Shutdown { c: x, .. } | Act::Drop { c: x, .. } => *x != c,
                 _ => true,
             });
             out.push(s);
@@ -1544,6 +1563,7 @@ impl Property for C13 {
             .map(|(_, a)| match a {
                 Act::Connect { .. } => "C",
                 Act::Cancel { .. } => "X",
+                Act::Repoll { .. } => "P",
                 Act::Accept { .. } => "A",
                 Act::Write { client, .. } => if *client { "w" } else { "W" },
                 Act::Read { client, .. } => if *client { "r" } else { "R" },
@@ -1585,7 +1605,7 @@ mod tests {
     fn base() -> Scenario {
         Scenario {
             guarded: false,
-            cfg: NetCfg { retx_threshold: 3, retx_max: 5, backlog: 4 },
+            cfg: NetCfg { retx_threshold: 3, retx_max: 5, backlog: 4, recv_cap: 0 },
             hosts: vec![vec!["10.0.0.1".into()], vec!["10.0.1.1".into()]],
             listeners: vec![ListenerSpec { ip: "0.0.0.0".into(), port: 9000 }],
             conns: vec![ConnSpec { from: 1, to: Some(0), sel: 0 }],
